@@ -97,6 +97,21 @@ func runC05(rc *RunCtx) {
 			want[f]++
 		}
 	}
+	if t.Chance(1, 1000) && len(fields) > 0 {
+		// a very long field list (a generated point database: every bit of every status word under its own name): the
+		// definitions drawn above, over and over under new names, past 65536 entries
+		total := 64000 + t.Choose(5000)
+		tmpl := len(fields)
+		for i := tmpl; i < total; i++ {
+			f := fields[i%tmpl]
+			f.Name = fmt.Sprintf("%s#%d", f.Name, i)
+			fields = append(fields, f)
+			if f.Type != modbus.FieldTypeCoil {
+				want[f]++
+			}
+		}
+		rc.Probe("field_list_past_65536_entries")
+	}
 	shortRate := t.Pick(3, 1)
 	devSeed := uint64(t.Choose(1 << 30))
 	asciiEvery := []int{0, 2, 5}[t.Choose(3)]
@@ -150,9 +165,9 @@ func runC05(rc *RunCtx) {
 		fn, tab = "fc3", TabHolding
 	}
 	sigBase := fmt.Sprintf("%s|%s", fn, fr)
-	rc.Desc = map[string]any{"function": fn, "framing": fr.String(), "lenient": lenient, "servers": len(servers), "units": nunits, "fields": describeFields(fields), "requests": len(reqs)}
+	rc.Desc = map[string]any{"function": fn, "framing": fr.String(), "lenient": lenient, "servers": len(servers), "units": nunits, "fields": describeFields(fields[:min(len(fields), 64)]), "field_count": len(fields), "requests": len(reqs)}
 	rc.Nontrivial = len(want) > 1
-	for _, f := range fields {
+	for _, f := range fields[:min(len(fields), 64)] {
 		rc.Shape("%d/%d/%d/%s/%d", f.Type, f.ByteOrder, bucket(int(f.Length)), f.ServerAddress, f.UnitID)
 	}
 	rc.Shape("%s|%v|reqs=%d|short=%d|bases=%v", sigBase, lenient, len(reqs), shortRate, baseClass)
